@@ -30,7 +30,8 @@ THEOREMS = ["TLX.Props.C04." + n for n in (
     "merge_keeps_both", "flow_qualifies_as_a_whole", "roles_agree_with_options", "tls_demux_exact", "tls_session_for",
     "tls_alone_is_run", "tls_solo_equals_merged", "tls_sessions_merge", "tls_export_union", "quic_foreign_iff",
     "quic_route_exact", "quic_solo_equals_merged", "quic_export_union", "quicSeparated_of_check", "empty_dcid_falls_to_tuple",
-    "empty_cid_never_chosen", "short_with_only_empty_cids_falls_to_tuple", "short_choice_is_longest", "short_never_creates",
+    "empty_cid_never_chosen", "short_with_only_empty_cids_falls_to_tuple", "own_cid_never_misdirects",
+    "own_cid_direction_agrees", "Ex.legacy_own_cid_misdirects", "short_choice_is_longest", "short_never_creates",
     "tls_quic_independent", "tcp_leaves_quic_alone", "udp_leaves_tls_alone", "unrelated_ignored", "ignored_iff",
     "run_tls_sessions_merge", "Ex.capC_is_merge", "Ex.capAB_disjoint", "Ex.separated_example", "Ex.quic_cross_routing_by_prefix",
     "Ex.quic_cross_routing_by_tuple", "Ex.quic_route_counterexample")] + ["TLX.Props.C18." + n for n in (
@@ -294,6 +295,41 @@ def gen_ports(rng):
     return [443, 44330] + rng.sample([443, 8443, 5000, 40000, 5001], rng.randrange(0, 3))
 
 
+def gen_zcid_ops(rng):
+    """One or two connections in which one endpoint uses a zero-length CID and the other a 1–2 byte CID; short-header
+    datagrams in BOTH directions whose byte 1.. equals that CID (as the DCID it is in one direction, as the first protected
+    bytes by chance in the other), plus near misses."""
+    ports = [443, 44330, 443]
+    ops = [("opts", ports)]
+    conns, tag = [], 0
+    for k in range(rng.randrange(1, 3)):
+        fam = V6 if rng.random() < 0.3 else V4
+        cl, sv = (rng.choice(fam), rng.choice([5000, 5001, 40000])), (rng.choice(fam), rng.choice([443, 44330]))
+        c = bytes(rng.randrange(256) for _ in range(rng.choice([1, 1, 2])))
+        cc, sc = ([c], [b""]) if rng.random() < 0.5 else ([b""], [c])
+        if rng.random() < 0.3:
+            (cc if rng.random() < 0.5 else sc).append(c + bytes([rng.randrange(256)]))            # a longer CID with the same start
+        conns.append((cl, sv, c, cc, sc))
+    for cl, sv, c, cc, sc in conns:
+        tag += 1
+        d = bytes(rng.randrange(256) for _ in range(8))
+        pl = bytes([0xC0 | rng.randrange(0x10)]) + (1).to_bytes(4, "big") + bytes([len(d)]) + d + bytes(rng.randrange(256) for _ in range(6))
+        ops.append(("udp", {"tag": tag, "l4": "u", "sip": cl[0], "sport": cl[1], "dip": sv[0], "dport": sv[1], "payload": pl,
+                            "ck": True, "cc": cc, "sc": sc + [d]}, "long"))
+    for _ in range(rng.randrange(6, 16)):
+        tag += 1
+        cl, sv, c, cc, sc = rng.choice(conns)
+        src, dst = (cl, sv) if rng.random() < 0.5 else (sv, cl)
+        r = rng.random()
+        head = c if r < 0.6 else (c[:-1] + bytes([c[-1] ^ 1]) if r < 0.75 else bytes(rng.randrange(256) for _ in range(len(c))))
+        pl = bytes([0x40 | rng.randrange(0x40)]) + head + bytes(rng.randrange(256) for _ in range(rng.randrange(0, 8)))
+        newc = ([bytes(rng.randrange(256) for _ in range(len(c)))], []) if rng.random() < 0.1 else ([], [])
+        ops.append(("udp", {"tag": tag, "l4": "u", "sip": src[0], "sport": src[1], "dip": dst[0], "dport": dst[1], "payload": pl,
+                            "ck": True, "cc": newc[0], "sc": newc[1]}, "short-zcid"))
+    ops.append(("dump",))
+    return ops
+
+
 # ====================================================================================== (a) routing
 def corr_routing(ctx, n_seq):
     from tlexport.packet import Packet
@@ -301,6 +337,10 @@ def corr_routing(ctx, n_seq):
     pt_t, pt_q, pt_f = ctx.point(P_ROUTE_TLS), ctx.point(P_ROUTE_QUIC), ctx.point(P_ROUTE_FINAL)
     seqs, lines = [], []
     for s in range(n_seq):
+        if s % 6 == 5:
+            seqs.append(gen_zcid_ops(rng))
+            lines.extend(seq_lines(seqs[-1]))
+            continue
         ports = gen_ports(rng)
         flows = gen_flows(rng, rng.randrange(2, 7))
         pool = gen_cid_pool(rng)
